@@ -1,0 +1,53 @@
+//go:build verif
+
+package ship
+
+import (
+	"time"
+
+	"github.com/enbility/ship-go/model"
+)
+
+// Read-only view of a connection for runtime monitors.
+// Only compiled with the "verif" build tag; changes no behaviour.
+type VerifSnapshot struct {
+	State        model.ShipMessageExchangeState
+	Err          error
+	TimerRunning bool
+	TimerType    uint
+	Buffered     int
+	ReaderSet    bool
+	RemoteShipID string
+}
+
+// VerifSnapshot returns the current state of the connection, each part read
+// under the mutex the connection itself uses for it.
+func (c *ShipConnection) VerifSnapshot() VerifSnapshot {
+	s := VerifSnapshot{}
+
+	c.mux.Lock()
+	s.State = c.smeState
+	s.Err = c.smeError
+	s.ReaderSet = c.dataReader != nil
+	s.RemoteShipID = c.remoteShipID
+	c.mux.Unlock()
+
+	s.TimerRunning = c.getHandshakeTimerRunning()
+	s.TimerType = uint(c.getHandshakeTimerType())
+
+	c.bufferMux.Lock()
+	s.Buffered = len(c.spineBuffer)
+	c.bufferMux.Unlock()
+
+	return s
+}
+
+// VerifArmTimer arms the handshake timer exactly as the handshake code does.
+func (c *ShipConnection) VerifArmTimer(timerType uint, duration time.Duration) {
+	c.setHandshakeTimer(timeoutTimerType(timerType), duration)
+}
+
+// VerifStopTimer stops the handshake timer exactly as the handshake code does.
+func (c *ShipConnection) VerifStopTimer() {
+	c.stopHandshakeTimer()
+}
